@@ -416,6 +416,70 @@ def _format_table(mod, name):
         out.append((ks, f'{v.value.id}.{v.attr}'))
     return out
 
+NOTATION_KEYS = [['real', 'imag'], ['abs', 'phase'], ['abs', 'phase_deg']]
+
+def _notation_shape(mod):
+    """`_complex_from_notation(value)` of dump_load.py: how a mapping is recognised as a complex notation.
+         keys = set(value.keys());           if keys == {'real', 'imag'}: …      -> by key set      (False)
+         keys = sorted(list(value.keys()));  if keys == sorted(['real', 'imag']) -> by sorted keys  (True; raises TypeError
+                                                                                   for keys of different types)
+       and the three key sets in source order"""
+    rel = 'dump_load.py'
+    fn = _func(mod, '_complex_from_notation')
+    if fn is None or [a.arg for a in fn.args.args] != ['value'] or fn.decorator_list:
+        raise ExtractError(f'{rel}: _complex_from_notation(value) not found')
+    body = _body_without_doc(fn)
+    st = body[0] if body else None
+    if not (isinstance(st, ast.Assign) and len(st.targets) == 1 and isinstance(st.targets[0], ast.Name) and st.targets[0].id == 'keys'):
+        _fail(rel, fn, '_complex_from_notation: first statement is not `keys = …`')
+    txt = ast.unparse(st.value)
+    if txt == 'set(value.keys())': by_sorted = False
+    elif txt == 'sorted(list(value.keys()))': by_sorted = True
+    else: _fail(rel, st, f'_complex_from_notation: `keys = {txt}` outside the grammar')
+    sets = []
+    for st in body[1:]:
+        if isinstance(st, ast.If):
+            t = st.test
+            if not (isinstance(t, ast.Compare) and len(t.ops) == 1 and isinstance(t.ops[0], ast.Eq) and isinstance(t.left, ast.Name)
+                    and t.left.id == 'keys' and not st.orelse):
+                _fail(rel, st, '_complex_from_notation: test is not `keys == …`')
+            c = t.comparators[0]
+            if not by_sorted and isinstance(c, ast.Set): elts = c.elts
+            elif by_sorted and isinstance(c, ast.Call) and isinstance(c.func, ast.Name) and c.func.id == 'sorted' and len(c.args) == 1 \
+                    and isinstance(c.args[0], ast.List): elts = c.args[0].elts
+            else: _fail(rel, st, '_complex_from_notation: key set literal outside the grammar')
+            ks = [_const_str(e) for e in elts]
+            if None in ks: _fail(rel, st, '_complex_from_notation: non-string notation key')
+            sets.append(ks)
+        elif isinstance(st, ast.Return) and isinstance(st.value, ast.Constant) and st.value.value is None and st is body[-1]:
+            pass
+        else:
+            _fail(rel, st, '_complex_from_notation: statement outside the grammar')
+    if [sorted(k) for k in sets] != [sorted(k) for k in NOTATION_KEYS]:
+        _fail(rel, fn, f'_complex_from_notation: notations {sets} are not real/imag, abs/phase, abs/phase_deg in this order')
+    return by_sorted, sets
+
+def _dictify_parts(mod):
+    """do `dictify_complex_values` / `dictify_all_complex_values` store the parts as `float(x.real)` (plain Python floats,
+    which every serialiser can carry) or as `x.real` (numpy.float64 for numpy complex values)?"""
+    rel = 'dump_load.py'
+    flags = []
+    for name in ('dictify_complex_values', 'dictify_all_complex_values'):
+        fn = _func(mod, name)
+        if fn is None or fn.decorator_list: raise ExtractError(f'{rel}: {name} not found')
+        dicts = [n for n in ast.walk(fn) if isinstance(n, ast.Dict) and [_const_str(k) for k in n.keys] == ['real', 'imag']]
+        if len(dicts) != 1: _fail(rel, fn, f"{name}: expected exactly one {{'real': …, 'imag': …}} literal")
+        shapes = []
+        for attr, v in zip(('real', 'imag'), dicts[0].values):
+            if isinstance(v, ast.Attribute) and v.attr == attr and isinstance(v.value, ast.Name): shapes.append(False)
+            elif (isinstance(v, ast.Call) and isinstance(v.func, ast.Name) and v.func.id == 'float' and len(v.args) == 1 and not v.keywords
+                  and isinstance(v.args[0], ast.Attribute) and v.args[0].attr == attr and isinstance(v.args[0].value, ast.Name)): shapes.append(True)
+            else: _fail(rel, dicts[0], f'{name}: part {attr!r} is neither `x.{attr}` nor `float(x.{attr})`')
+        if shapes[0] != shapes[1]: _fail(rel, dicts[0], f'{name}: real and imaginary part are stored differently')
+        flags.append(shapes[0])
+    if flags[0] != flags[1]: _fail(rel, mod, 'dictify_complex_values and dictify_all_complex_values store the parts differently')
+    return flags[0]
+
 KNOWN_DECORATORS = {'property', 'abstractmethod', 'staticmethod', 'classmethod'}
 
 def _decorations(rel, tree):
@@ -523,6 +587,16 @@ def gen_load_tables(src: Path) -> str:
     L.append('/-- `serializers` / `deserializers` of dump_load.py: format ↦ library function -/')
     L.append('def serializers : List (String × String) := ' + _lean_list(f'({lean_str(a)}, {lean_str(b)})' for a, b in ser))
     L.append('def deserializers : List (String × String) := ' + _lean_list(f'({lean_str(a)}, {lean_str(b)})' for a, b in des))
+    L.append('')
+    by_sorted, nsets = _notation_shape(mod_dl)
+    plain_floats = _dictify_parts(mod_dl)
+    L.append('/-- `_complex_from_notation`: is a mapping recognised by `sorted(list(value.keys()))` (true: raises TypeError for keys of')
+    L.append('    different types) or by its key set `set(value.keys())` (false)? -/')
+    L.append(f'def notationBySortedKeys : Bool := {"true" if by_sorted else "false"}')
+    L.append('/-- the key sets of the three notations, in source order -/')
+    L.append('def notationKeySets : List (List String) := ' + _lean_list(_lean_list(lean_str(k) for k in ks) for ks in nsets))
+    L.append("/-- do the dictify functions store `float(x.real)`, `float(x.imag)` (plain floats: a numpy.complex128 survives yaml)? -/")
+    L.append(f'def dictifyPlainFloats : Bool := {"true" if plain_floats else "false"}')
     L.append('')
     deco = []
     for rel in (LOADERS, 'dump_load.py', CDL, ELEMENTS, COMPONENTS, 'Network/network.py', 'Circuit/circuit.py'):
